@@ -24,6 +24,9 @@
 
 #include "EbSvtAv1Dec.h"
 #include "EbDecHandle.h"
+#ifdef SVT_AV1_VERIF
+#include "EbVerifHooks.h"
+#endif
 
 #include "EbDecParseHelper.h"
 #include "EbCommonUtils.h"
@@ -208,6 +211,9 @@ void decode_block(DecModCtxt *dec_mod_ctxt, BlockModeInfo *mode_info, int32_t mi
                     (volatile int32_t *)&dec_mt_frame_data->parse_recon_tile_info_array[tiles_ctr]
                         .sb_recon_completed_in_row[ref_sb_tile_row];
                 while (*ref_sb_completed < ref_sb_tile_col + 1)
+#ifdef SVT_AV1_VERIF
+                    SVT_VERIF_SPIN(ref_sb_completed)
+#endif
                     ;
             }
         }
